@@ -1285,6 +1285,25 @@ impl<T> Vec<T> {
     { unimplemented!() }
 }
 
+impl<T> Vec<T> {
+    #[verifier::external_body]
+    pub fn len(&self) -> (r: usize)
+        ensures r == self@.len(),
+    { unimplemented!() }
+}
+
+// v[i]
+impl<T> ::vstd::std_specs::core::IndexSpecImpl<usize> for Vec<T> {
+    open spec fn index_req(&self, index: &usize) -> bool { *index < self@.len() }
+}
+impl<T> ::core::ops::Index<usize> for Vec<T> {
+    type Output = T;
+    #[verifier::external_body]
+    fn index(&self, index: usize) -> (r: &T)
+        ensures *r == self@[index as int],
+    { unimplemented!() }
+}
+
 impl<T: Clone> Clone for Vec<T> {
     #[verifier::external_body]
     fn clone(&self) -> (r: Vec<T>)
@@ -1488,6 +1507,17 @@ verus! {
 impl<'a, T, P> IntoIter for &'a Punctuated<T, P> {
     type Item = &'a T;
     open spec fn into_items(&self) -> Seq<&'a T> { refs(self.pseq()) }
+}
+// p[i]
+impl<T, P> ::vstd::std_specs::core::IndexSpecImpl<usize> for Punctuated<T, P> {
+    open spec fn index_req(&self, index: &usize) -> bool { *index < self.pseq().len() }
+}
+impl<T, P> ::core::ops::Index<usize> for Punctuated<T, P> {
+    type Output = T;
+    #[verifier::external_body]
+    fn index(&self, index: usize) -> (r: &T)
+        ensures *r == self.pseq()[index as int],
+    { unimplemented!() }
 }
 impl<T, P> Punctuated<T, P> {
     #[verifier::external_body]
@@ -1896,7 +1926,7 @@ pub enum MemberAttrType {
     pub error_instrs: Vec<MemberInstruction>,
 }
 #[derive(Clone, Copy, PartialEq, Eq, Structural)]
- enum TypeHint {
+pub enum TypeHint {
     Unit = 0,
     Struct = 1,
     Tuple = 2,
@@ -1971,7 +2001,7 @@ pub enum TraitAttrType {
     pub container_ty: Option<TypePath>,
     pub child_parents: Punctuated<ChildParentData, Token![,]>,
 }
- struct ChildParentData {
+pub struct ChildParentData {
     pub ty: syn::Path,
     pub type_hint: TypeHint,
     pub field_path: Punctuated<Member, Token![.]>,
@@ -2136,7 +2166,7 @@ struct ImplContext<'a> {
     has_post_init: bool,
     fallible: bool,
 }
-struct ChildRenderContext<'a> {
+pub struct ChildRenderContext<'a> {
     pub ty: &'a syn::Path,
     pub type_hint: TypeHint
 }
@@ -2441,6 +2471,437 @@ spec fn spec_applicable_field<'a>(a: &'a MemberAttrs, k: Kind, fallible: bool, t
 spec fn p_pcf<'a>(k: Kind) -> spec_fn(&'a ParentChildFieldAttr) -> bool { |x: &ParentChildFieldAttr| appl(x.applicable_to, k) }
 spec fn spec_pcf_for_kind<'a>(p: &'a ParentChildField, k: Kind) -> Option<&'a ParentChildFieldAttr> {
     or2(first(refs(p.attrs@), p_pcf(k)), if k_is_into_existing(k) { first(refs(p.attrs@), p_pcf(into_of(k))) } else { None })
+}
+// ---- spec vocabulary of the emission layer: field lines (C01 C03 C07 C10) ----
+
+// view of the applicable instruction: counterpart member and inline expression it designates
+spec fn aa_member<'a>(a: ApplicableAttr<'a>) -> Option<Member> {
+    match a {
+        ApplicableAttr::Field(c) => c.member,
+        ApplicableAttr::Ghost(_) => None,
+        ApplicableAttr::ParentChildField(p, k) => match spec_pcf_for_kind(p, k) { Some(x) => x.that_member, None => None },
+    }
+}
+spec fn aa_action<'a>(a: ApplicableAttr<'a>) -> Option<TokenStream> {
+    match a {
+        ApplicableAttr::Field(c) => c.action,
+        ApplicableAttr::Ghost(g) => g.action,
+        ApplicableAttr::ParentChildField(p, k) => match spec_pcf_for_kind(p, k) { Some(x) => x.action, None => None },
+    }
+}
+
+// payload binding / field name as it is spelled on the source object: inside enum variants tuple fields are bound as f0, f1, ..
+spec fn bind_toks(m: Member, variant: bool) -> Toks {
+    match m {
+        Member::Unnamed(i) => if variant { f_tok(i.index as int) } else { m.toks() },
+        Member::Named(_) => m.toks(),
+    }
+}
+
+// `value.` / `self.` in front of a field; nothing inside a variant (bindings)
+spec fn obj_toks<'a>(ctx: ImplContext<'a>) -> Toks {
+    if ctx.impl_type is Variant { nil() } else { at_toks(ctx.kind) + p(".") }
+}
+
+// #[child(a.b)] prefix of the counterpart's field path
+spec fn child_prefix(a: &MemberAttrs, ty: TypePath) -> Toks {
+    match spec_child(a, ty) {
+        Some(c) => c.child_path.child_path.toks() + p("."),
+        None => nil(),
+    }
+}
+
+// the counterpart member a From-direction instruction designates (for #[parent(..)] child fields: that_member, else the child field itself)
+spec fn stuff_member<'a>(a: ApplicableAttr<'a>) -> Option<Member> {
+    match a {
+        ApplicableAttr::Field(c) => c.member,
+        ApplicableAttr::Ghost(_) => None,
+        ApplicableAttr::ParentChildField(p, k) => match aa_member(a) { Some(m) => Some(m), None => Some(p.this_member) },
+    }
+}
+
+
+spec fn is_member(r: &Member, m: &Member) -> bool { *r == *m }
+
+// what ApplicableAttr::get_stuff returns, in terms of the contracts of the two closures it is given
+spec fn get_stuff_inner_post<F1: Fn(&Member) -> TokenStream, F2: Fn() -> &'static Member>(
+    member: Option<Member>, action: Option<TokenStream>, obj: Toks, field_path: F1, or: F2, ctx: ImplContext, r: Toks) -> bool
+{
+    match (member, action) {
+        (Some(m), Some(a)) => exists|mm: Member, t: TokenStream| mm.toks() == bind_toks(m, ctx.impl_type is Variant) && #[trigger] field_path.ensures((&mm,), t)
+            && r == spec_action(a@, t@, ctx),
+        (Some(m), None) => exists|mm: Member, t: TokenStream| mm.toks() == bind_toks(m, ctx.impl_type is Variant) && #[trigger] field_path.ensures((&mm,), t)
+            && r =~= obj + t@,
+        (None, Some(a)) => exists|o: &Member, t: TokenStream| or.ensures((), o) && #[trigger] field_path.ensures((o,), t) && r == spec_action(a@, t@, ctx),
+        (None, None) => exists|o: &Member, t: TokenStream| or.ensures((), o) && #[trigger] field_path.ensures((o,), t) && r =~= obj + t@,
+    }
+}
+
+
+// ================================================================== the designated line of one struct field (C01)
+// applicable instruction of the field for this conversion (a #[parent(..)] child field carries its own)
+spec fn line_attr<'a>(f: &'a Field, ctx: ImplContext<'a>, pc: Option<&'a ParentChildField>) -> Option<ApplicableAttr<'a>> {
+    match pc {
+        Some(p) => Some(ApplicableAttr::ParentChildField(p, ctx.kind)),
+        None => spec_applicable(&f.attrs, ctx.kind, ctx.fallible, ctx.struct_attr.ty),
+    }
+}
+spec fn line_member<'a>(f: &'a Field, pc: Option<&'a ParentChildField>) -> Member {
+    match pc { Some(p) => p.this_member, None => f.member }
+}
+
+// is the counterpart addressed by field names (true) or by position (false)?  `as {}` / `as ()` decide, else this side's own form
+spec fn target_named(member: Member, hint: TypeHint) -> bool {
+    hint is Struct || (hint is Unspecified && member is Named)
+}
+
+// ---- converting INTO the counterpart: the value this member delivers
+// the member itself on the source object (for a #[parent(..)] child field: field sub.path.child)
+spec fn own_path<'a>(f: &'a Field, member: Member, ctx: ImplContext<'a>, pc: Option<&'a ParentChildField>) -> Toks {
+    match pc {
+        Some(pcf) => bind_toks(f.member, ctx.impl_type is Variant) + pcf.sub_path_tokens@ + p(".") + member.toks(),
+        None => bind_toks(f.member, ctx.impl_type is Variant),
+    }
+}
+spec fn into_src<'a>(f: &'a Field, member: Member, a: Option<ApplicableAttr<'a>>, ctx: ImplContext<'a>, pc: Option<&'a ParentChildField>) -> Toks {
+    let path = own_path(f, member, ctx, pc);
+    if a is Some && aa_action(a->0) is Some {
+        spec_action(aa_action(a->0)->0@, path, ctx)     // `~` is this member on the source object
+    } else {
+        obj_toks(ctx) + path
+    }
+}
+// the counterpart's field that receives it: the renamed member when one is given, else the same-named member
+spec fn into_dst_name<'a>(f: &'a Field, member: Member, a: Option<ApplicableAttr<'a>>) -> Member {
+    if a is Some && aa_member(a->0) is Some { aa_member(a->0)->0 } else { member }
+}
+
+spec fn int_tok(n: int) -> Toks { seq![Tok::Int(n)] }
+
+spec fn spec_into_line<'a>(f: &'a Field, ctx: ImplContext<'a>, hint: TypeHint, idx: int, pc: Option<&'a ParentChildField>) -> Toks {
+    let member = line_member(f, pc);
+    let a = line_attr(f, ctx, pc);
+    let src = into_src(f, member, a, ctx, pc);
+    if target_named(member, hint) {
+        let dst = into_dst_name(f, member, a).toks();
+        if ctx.has_post_init { id("obj") + p(".") + dst + p("=") + src + p(";") } else { dst + p(":") + src + p(",") }
+    } else {
+        if ctx.has_post_init { id("obj") + p(".") + int_tok(idx) + p("=") + src + p(";") } else { src + p(",") }
+    }
+}
+
+// ---- into_existing: the same value assigned to the same field of the existing counterpart, through the #[child] path
+spec fn spec_existing_line<'a>(f: &'a Field, ctx: ImplContext<'a>, hint: TypeHint, idx: int, pc: Option<&'a ParentChildField>) -> Toks {
+    let member = line_member(f, pc);
+    let a = line_attr(f, ctx, pc);
+    let src = into_src(f, member, a, ctx, pc);
+    let dst = if target_named(member, hint) {
+        into_dst_name(f, member, a).toks()
+    } else if a is Some && aa_member(a->0) is Some {
+        aa_member(a->0)->0.toks()        // position given by the instruction
+    } else {
+        match pc { Some(_) => member.toks(), None => int_tok(f.idx as int) }   // same (declaration) position
+    };
+    id("other") + p(".") + child_prefix(&f.attrs, ctx.struct_attr.ty) + dst + p("=") + src + p(";")
+}
+
+// ---- converting FROM the counterpart: this member receives the designated counterpart field
+// a bare #[parent] member is produced from the whole counterpart
+spec fn whole_counterpart<'a>(ctx: ImplContext<'a>) -> Toks {
+    (if k_is_ref(ctx.kind) { id("value") } else { paren(p("&") + id("value")) })
+    + p(".") + (if ctx.fallible { id("try_into") + paren(nil()) + p("?") } else { id("into") + paren(nil()) })
+}
+// counterpart field read by default: same name, or same position when the counterpart is positional
+spec fn from_default_member<'a>(f: &'a Field, ctx: ImplContext<'a>, hint: TypeHint) -> Toks {
+    if f.member is Named && !(hint is Tuple) {
+        f.member.toks()
+    } else if ctx.impl_type is Variant {
+        f_tok(f.idx as int)
+    } else {
+        int_tok(f.idx as int)
+    }
+}
+spec fn from_src<'a>(f: &'a Field, a: Option<ApplicableAttr<'a>>, ctx: ImplContext<'a>, hint: TypeHint, pc: Option<&'a ParentChildField>) -> Toks {
+    let pre = child_prefix(&f.attrs, ctx.struct_attr.ty);
+    if a is None {
+        if spec_has_parent_attr(&f.attrs, ctx.struct_attr.ty) && !(f.member is Named && hint is Tuple) { whole_counterpart(ctx) } else { obj_toks(ctx) + pre + from_default_member(f, ctx, hint) }
+    } else if a->0 is Ghost {
+        spec_action(aa_action(a->0)->0@, nil(), ctx)
+    } else {
+        let cf = match stuff_member(a->0) {
+            Some(m) => pre + bind_toks(m, ctx.impl_type is Variant),
+            None => pre + from_default_member(f, ctx, hint),
+        };
+        if aa_action(a->0) is Some { spec_action(aa_action(a->0)->0@, cf, ctx) } else { obj_toks(ctx) + cf }
+    }
+}
+spec fn spec_from_line<'a>(f: &'a Field, ctx: ImplContext<'a>, hint: TypeHint, pc: Option<&'a ParentChildField>) -> Toks {
+    let member = line_member(f, pc);
+    let a = line_attr(f, ctx, pc);
+    let src = from_src(f, a, ctx, hint, pc);
+    if member is Named { member.toks() + p(":") + src + p(",") } else { src + p(",") }
+}
+
+spec fn spec_struct_line<'a>(f: &'a Field, ctx: ImplContext<'a>, hint: TypeHint, idx: int, pc: Option<&'a ParentChildField>) -> Toks {
+    if k_is_from(ctx.kind) {
+        spec_from_line(f, ctx, hint, pc)
+    } else if hint is Unit {
+        nil()
+    } else if k_is_into_existing(ctx.kind) {
+        spec_existing_line(f, ctx, hint, idx, pc)
+    } else {
+        spec_into_line(f, ctx, hint, idx, pc)
+    }
+}
+// ---- the destructuring pattern of a variant's payload (variant_destruct_block), as a function of the views (C02) ----
+// form of the SOURCE variant's payload: converting into the counterpart the source is this variant (own form);
+// converting from it the source is the counterpart's variant: #[type_hint] decides, else own form
+spec fn destruct_form(named: bool, k: Kind, hint: TypeHint) -> TypeHint {
+    if k_is_from(k) {
+        if hint is Unit { TypeHint::Unit } else if hint is Struct || (hint is Unspecified && named) { TypeHint::Struct } else { TypeHint::Tuple }
+    } else {
+        if named { TypeHint::Struct } else { TypeHint::Tuple }
+    }
+}
+
+// a payload field takes part in the pattern unless it is ghost for a From conversion
+spec fn q_bound<'a>(ctx: CView) -> spec_fn(&'a Field) -> bool {
+    |f: &Field| !k_is_from(ctx.kind) || spec_ghost(&f.attrs, ctx.sa.ty, ctx.kind) is None
+}
+
+// named payloads are bound by (the counterpart's) field name, tuple payloads as f0, f1, ..
+spec fn field_binding<'a>(f: &'a Field, form: TypeHint, ctx: CView) -> Toks {
+    if form is Struct {
+        let a = spec_applicable(&f.attrs, ctx.kind, ctx.fallible, ctx.sa.ty);
+        (if k_is_from(ctx.kind) && a is Some {
+            match aa_member(a->0) { Some(m) => m, None => f.member }
+        } else {
+            f.member
+        }).toks() + p(",")
+    } else {
+        f_tok(f.idx as int) + p(",")
+    }
+}
+spec fn b_struct<'a>(ctx: CView) -> spec_fn(&'a Field) -> Toks { |f: &'a Field| field_binding(f, TypeHint::Struct, ctx) }
+spec fn b_tuple<'a>(ctx: CView) -> spec_fn(&'a Field) -> Toks { |f: &'a Field| field_binding(f, TypeHint::Tuple, ctx) }
+
+spec fn field_bindings(fields: Seq<Field>, form: TypeHint, ctx: CView) -> Seq<Toks> {
+    if form is Struct { sfilter(refs(fields), q_bound(ctx)).map_values(b_struct(ctx)) }
+    else if form is Tuple { sfilter(refs(fields), q_bound(ctx)).map_values(b_tuple(ctx)) }
+    else { Seq::<Toks>::empty() }
+}
+
+// counterpart-only payload fields declared in the variant's #[ghosts] are bound too (so that the pattern is exhaustive)
+spec fn ghost_binding<'a>() -> spec_fn(&'a GhostData) -> Toks {
+    |g: &'a GhostData| (match g.ghost_ident {
+        GhostIdent::Member(Member::Named(i)) => i.toks(),
+        GhostIdent::Member(Member::Unnamed(i)) => f_tok(i.index as int),
+        GhostIdent::Destruction(d) => d@,
+    }) + p(",")
+}
+spec fn first_ghosts<'a>(s: Seq<GhostsAttr>, ty: TypePath, k: Kind) -> Option<&'a StructGhostAttrCore> {
+    match ded_then_default(refs(s), p_ghosts(ty, k, true), p_ghosts(ty, k, false)) { Some(g) => Some(&g.attr), None => None }
+}
+spec fn ghost_bindings(sv: SView, ctx: CView) -> Seq<Toks> {
+    if k_is_from(ctx.kind) {
+        match first_ghosts(sv.attrs.ghosts_attrs, ctx.sa.ty, ctx.kind) {
+            Some(g) => refs(g.ghost_data.pseq()).map_values(ghost_binding()),
+            None => Seq::<Toks>::empty(),
+        }
+    } else {
+        Seq::<Toks>::empty()
+    }
+}
+
+spec fn spec_variant_destruct(sv: SView, ctx: CView) -> Toks {
+    let form = destruct_form(sv.named_fields, ctx.kind, ctx.sa.type_hint);
+    let inner = flat(field_bindings(sv.fields, form, ctx)) + flat(ghost_bindings(sv, ctx));
+    if form is Struct { brace(inner) } else if form is Tuple { paren(inner) } else { nil() }
+}
+// the variant seen as a struct: same payload fields, its own #[ghosts], nothing else
+spec fn vsview(v: &Variant) -> SView {
+    SView {
+        attrs: AView { attrs: Seq::empty(), ghosts_attrs: v.attrs.ghosts_attrs@, where_attrs: Seq::empty(), child_parents_attrs: Seq::empty() },
+        ident: v.ident, fields: v.fields@, named_fields: v.named_fields, unit: v.unit,
+    }
+}
+// the conversion context inside the arm: bindings instead of value./self., counterpart form from #[type_hint]
+spec fn vcview<'a>(v: &Variant, ctx: ImplContext<'a>, hint: TypeHint) -> CView {
+    CView { input: Some(vsview(v)), impl_type: ImplType::Variant, sa: TraitAttrCore { type_hint: hint, ..*ctx.struct_attr }, ..cview(ctx) }
+}
+
+spec fn variant_hint(v: &Variant, ty: TypePath) -> TypeHint {
+    match spec_type_hint(&v.attrs, ty) { Some(h) => h.type_hint, None => TypeHint::Unspecified }
+}
+
+spec fn hint_maybe(h: TypeHint, m: TypeHint) -> bool { h == m || h is Unspecified }
+
+// left of `=>` when the variant itself is matched: its payload pattern
+spec fn arm_destr(empty_fields: bool, from: bool, hint: TypeHint, destruct: Toks) -> Toks {
+    if empty_fields && (!from || hint_maybe(hint, TypeHint::Unit)) {
+        nil()
+    } else if empty_fields && from && hint is Tuple {
+        paren(p(".."))
+    } else if empty_fields && from && hint is Struct {
+        brace(p(".."))
+    } else {
+        destruct
+    }
+}
+// payload constructor on the right of `=>`
+spec fn arm_init<'a>(a: Option<ApplicableAttr<'a>>, empty_fields: bool, hint: TypeHint, init: Toks) -> Toks {
+    if (a is Some && aa_action(a->0) is Some) || (empty_fields && hint_maybe(hint, TypeHint::Unit)) { nil() } else { init }
+}
+
+// which arm shapes exist (everything else is a todo!() in the code)
+spec fn arm_defined<'a>(a: Option<ApplicableAttr<'a>>, lit: bool, pat: bool, k: Kind) -> bool {
+    ||| (a is None && !lit && !pat)
+    ||| (a is Some && !lit && !pat && !k_is_into_existing(k))
+    ||| (a is None && lit && !pat && !k_is_into_existing(k))
+    ||| (a is None && !lit && pat && k_is_from(k))
+    ||| (a is Some && !lit && pat && k_is_into(k))
+}
+
+spec fn spec_enum_arm<'a>(v: &'a Variant, ctx: ImplContext<'a>, destruct: Toks, init0: Toks) -> Toks {
+    let ty = ctx.struct_attr.ty;
+    let a = spec_applicable(&v.attrs, ctx.kind, ctx.fallible, ty);
+    let lit = spec_lit(&v.attrs, ty);
+    let pat = spec_pat(&v.attrs, ty);
+    let hint = variant_hint(v, ty);
+    let empty = v.fields@.len() == 0;
+    let destr = arm_destr(empty, k_is_from(ctx.kind), hint, destruct);
+    let init = arm_init(a, empty, hint, init0);
+    let src_v = ctx.src_ty@ + p("::") + v.ident.toks();
+    let dst_v = ctx.dst_ty@ + p("::") + v.ident.toks();
+    if a is None && lit is None && pat is None {
+        // same-named variant on both sides
+        src_v + destr + p("=>") + dst_v + init + p(",")
+    } else if a is Some && lit is None && pat is None && k_is_from(ctx.kind) {
+        // the counterpart's (renamed) variant is matched; the result is this variant or the variant-level expression
+        let renamed = match aa_member(a->0) { Some(m) => m.toks(), None => match a->0 { ApplicableAttr::ParentChildField(pc, _) => pc.this_member.toks(), _ => v.ident.toks() } };
+        ctx.src_ty@ + p("::") + renamed + destr + p("=>")
+            + (if aa_action(a->0) is Some { spec_action(aa_action(a->0)->0@, v.ident.toks(), ctx) } else { dst_v + init })
+            + p(",")
+    } else if a is Some && lit is None && pat is None {
+        // this variant is matched; the result is the counterpart's (renamed) variant or the expression
+        let right = if a->0 is Ghost {
+            spec_action(aa_action(a->0)->0@, nil(), ctx)
+        } else {
+            let m = match stuff_member(a->0) { Some(m) => m.toks(), None => v.ident.toks() };
+            if aa_action(a->0) is Some { spec_action(aa_action(a->0)->0@, m + init, ctx) } else { ctx.dst_ty@ + p("::") + m + init }
+        };
+        src_v + destr + p("=>") + right + p(",")
+    } else if a is None && lit is Some && pat is None && k_is_from(ctx.kind) {
+        lit->0.tokens@ + p("=>") + dst_v + init + p(",")          // the value x converts to the variant
+    } else if a is None && lit is Some && pat is None {
+        src_v + destr + p("=>") + lit->0.tokens@ + p(",")         // the variant converts to the value x
+    } else if a is None && lit is None && pat is Some {
+        pat->0.tokens@ + p("=>") + dst_v + init + p(",")          // every value matching p converts to the variant
+    } else {
+        // pattern + Into: the variant converts to its Into expression
+        src_v + destr + p("=>") + spec_action(aa_action(a->0)->0@, nil(), ctx) + p(",")
+    }
+}
+
+
+// the whole arm of a variant, as render_enum_line emits it
+spec fn spec_variant_arm<'a>(v: &'a Variant, ctx: ImplContext<'a>) -> Toks {
+    let hint = variant_hint(v, ctx.struct_attr.ty);
+    spec_enum_arm(v, ctx, spec_variant_destruct(vsview(v), vcview(v, ctx, hint)), spec_struct_init(vsview(v), vcview(v, ctx, hint)))
+}
+
+spec fn enum_line_pre<'a>(v: &'a Variant, ctx: ImplContext<'a>) -> bool {
+    let a = spec_applicable(&v.attrs, ctx.kind, ctx.fallible, ctx.struct_attr.ty);
+    &&& arm_defined(a, spec_lit(&v.attrs, ctx.struct_attr.ty) is Some, spec_pat(&v.attrs, ctx.struct_attr.ty) is Some, ctx.kind)
+    &&& (a is Some && a->0 is Ghost) ==> (aa_action(a->0) is Some && !k_is_from(ctx.kind))
+    &&& (a is Some && spec_pat(&v.attrs, ctx.struct_attr.ty) is Some) ==> (aa_action(a->0) is Some && !(a->0 is Ghost))
+    &&& !(ctx.impl_type is Variant)
+}
+
+// the arm of a counterpart-only variant declared in enum-level #[ghosts(..)]
+spec fn spec_enum_ghost_arm<'a>(g: &'a GhostData, ctx: ImplContext<'a>) -> Toks {
+    if k_is_from(ctx.kind) {
+        ctx.src_ty@ + p("::") + (match g.ghost_ident { GhostIdent::Member(m) => m.toks(), GhostIdent::Destruction(d) => d@ })
+        + p("=>") + spec_action(g.action@, nil(), ctx) + p(",")
+    } else {
+        nil()
+    }
+}
+// ---- spec of the enum match block: arms in order, skipped variants, default case (C02 C06 C09) ----
+// a variant is left out of the match: ghost for this conversion when converting from the counterpart; ghost without a
+// default value when converting into it
+spec fn variant_skipped<'a>(v: &'a Variant, ctx: ImplContext<'a>) -> bool {
+    match spec_ghost(&v.attrs, ctx.struct_attr.ty, ctx.kind) {
+        Some(g) => k_is_from(ctx.kind) || g.action is None,
+        None => false,
+    }
+}
+
+// arms in declaration order, then the arms of enum-level #[ghosts]
+spec fn enum_arms<'a>(items: Seq<&'a VariantData<'a>>, ctx: ImplContext<'a>) -> Seq<Toks>
+    decreases items.len(),
+{
+    if items.len() == 0 {
+        Seq::<Toks>::empty()
+    } else {
+        (match *items[0] {
+            VariantData::Variant(v) => if variant_skipped(v, ctx) { Seq::<Toks>::empty() } else { seq![spec_variant_arm(v, ctx)] },
+            VariantData::GhostData(g) => seq![spec_enum_ghost_arm(g, ctx)],
+        }) + enum_arms(items.drop_first(), ctx)
+    }
+}
+
+spec fn enum_items_pre<'a>(items: Seq<&'a VariantData<'a>>, ctx: ImplContext<'a>) -> bool {
+    forall|i: int| 0 <= i < items.len() ==> (match *#[trigger] items[i] {
+        VariantData::Variant(v) => variant_skipped(v, ctx) || enum_line_pre(v, ctx),
+        VariantData::GhostData(g) => !(g.ghost_ident matches GhostIdent::Member(Member::Unnamed(_))),
+    })
+}
+
+spec fn q_has_lit_or_pat<'a>(ty: TypePath) -> spec_fn(&'a Variant) -> bool {
+    |v: &Variant| spec_lit(&v.attrs, ty) is Some || spec_pat(&v.attrs, ty) is Some
+}
+spec fn q_is_ghost<'a>(ty: TypePath, k: Kind) -> spec_fn(&'a Variant) -> bool {
+    |v: &Variant| spec_ghost(&v.attrs, ty, k) is Some
+}
+
+// the `_ => default` arm is emitted when some source value may be covered by no arm:
+//   converting from the counterpart: a variant corresponds to a literal / pattern, or counterpart-only variants are declared;
+//   converting into it: a variant of this enum is ghost
+spec fn default_case_needed<'a>(input: &Enum<'a>, ctx: ImplContext<'a>) -> bool {
+    let ty = ctx.struct_attr.ty;
+    if k_is_from(ctx.kind) {
+        first(refs(input.variants@), q_has_lit_or_pat(ty)) is Some || spec_ghosts_attr(&input.attrs, ty, ctx.kind) is Some
+    } else {
+        first(refs(input.variants@), q_is_ghost(ty, ctx.kind)) is Some
+    }
+}
+
+spec fn default_arm<'a>(input: &Enum<'a>, ctx: ImplContext<'a>) -> Seq<Toks> {
+    match ctx.struct_attr.default_case {
+        Some(d) => if default_case_needed(input, ctx) { seq![p("_") + spec_action(d@, nil(), ctx)] } else { Seq::<Toks>::empty() },
+        None => Seq::<Toks>::empty(),
+    }
+}
+
+
+// ---------------------------------------------------------------- enum_init_block: variants in declaration order, then the
+// counterpart-only variants of the #[ghosts] that applies to this counterpart and kind (C02 C06)
+spec fn mk_variant<'a>() -> spec_fn(&'a Variant) -> VariantData<'a> { |v: &'a Variant| VariantData::Variant(v) }
+spec fn mk_ghost<'a>() -> spec_fn(&'a GhostData) -> VariantData<'a> { |d: &'a GhostData| VariantData::GhostData(d) }
+
+spec fn enum_fields<'a>(input: &'a Enum<'a>, ctx: ImplContext<'a>) -> Seq<VariantData<'a>> {
+    refs(input.variants@).map_values(mk_variant())
+    + (match spec_ghosts_attr(&input.attrs, ctx.struct_attr.ty, ctx.kind) {
+        Some(g) => refs(g.ghost_data.pseq()).map_values(mk_ghost()),
+        None => Seq::<VariantData>::empty(),
+    })
+}
+
+
+// the whole `{ arm, arm, .. [_ default] }` block of an enum conversion
+spec fn spec_enum_init<'a>(input: &'a Enum<'a>, ctx: ImplContext<'a>) -> Toks {
+    brace(flat(enum_arms(refs(enum_fields(input, ctx)), ctx)) + flat(default_arm(input, ctx)))
 }
 
 // =====================================================================================================
@@ -2858,8 +3319,7 @@ fn render_parent(f: &Field, ctx: &ImplContext) -> (r: TokenStream)
 }
 
 // ---------------------------------------------------------------- body wrappers (C07 C08 C17)
-// ASSUMED (unreached callee): the struct / enum init block
-uninterp spec fn spec_enum_init<'a>(input: Enum<'a>, ctx: ImplContext<'a>) -> Toks;
+// ASSUMED (unreached callee): the struct init block (the enum block is proved in U9)
 
 #[verifier::external_body]
 fn struct_init_block<'a>(input: &'a Struct, ctx: &ImplContext) -> (r: TokenStream)
@@ -2868,7 +3328,10 @@ fn struct_init_block<'a>(input: &'a Struct, ctx: &ImplContext) -> (r: TokenStrea
 
 #[verifier::external_body]
 fn enum_init_block(input: &Enum, ctx: &ImplContext) -> (r: TokenStream)
-    ensures r@ == spec_enum_init(*input, *ctx),
+    requires
+        enum_items_pre(refs(enum_fields(input, *ctx)), *ctx),
+    ensures
+        r@ =~= brace(flat(enum_arms(refs(enum_fields(input, *ctx)), *ctx)) + flat(default_arm(input, *ctx))),
 { unimplemented!() }
 
 spec fn spec_struct_main<'a>(input: Struct<'a>, ctx: ImplContext<'a>) -> Toks {
@@ -2883,7 +3346,7 @@ spec fn spec_struct_main<'a>(input: Struct<'a>, ctx: ImplContext<'a>) -> Toks {
     }
 }
 
-spec fn spec_enum_main<'a>(input: Enum<'a>, ctx: ImplContext<'a>) -> Toks {
+spec fn spec_enum_main<'a>(input: &'a Enum<'a>, ctx: ImplContext<'a>) -> Toks {
     let init = spec_enum_init(input, ctx);
     if k_is_from(ctx.kind) {
         id("match") + id("value") + init
@@ -2920,8 +3383,10 @@ fn struct_main_code_block(input: &Struct, ctx: &ImplContext) -> (r: TokenStream)
 }
 
 fn enum_main_code_block(input: &Enum, ctx: &ImplContext) -> (r: TokenStream)
+    requires
+        enum_items_pre(refs(enum_fields(input, *ctx)), *ctx), // #every-rendered-variant-has-a-defined-arm [C16]
     ensures
-        r@ =~= spec_enum_main(*input, *ctx), // #enum-body-shape
+        r@ =~= spec_enum_main(input, *ctx), // #enum-body-shape
 {
 
     let enum_init_block = enum_init_block(input, ctx);
@@ -2941,9 +3406,20 @@ fn enum_main_code_block(input: &Enum, ctx: &ImplContext) -> (r: TokenStream)
 spec fn spec_data_body<'a>(ctx: ImplContext<'a>) -> Toks {
     match *ctx.input {
         DataType::Struct(s) => spec_struct_main(*s, ctx),
-        DataType::Enum(e) => spec_enum_main(*e, ctx),
+        DataType::Enum(e) => spec_enum_main(e, ctx),
     }
 }
+
+// what the body builders need from validation (C16 ledger): for an enum without quick return, every rendered variant has a
+// defined arm shape and carries what that shape needs.  (Independent of the post-init dialect: stated on the context with
+// has_post_init = false.)
+spec fn body_pre0<'a>(ctx: ImplContext<'a>) -> bool {
+    ctx.struct_attr.quick_return is None ==> (match *ctx.input {
+        DataType::Enum(e) => enum_items_pre(refs(enum_fields(e, ctx)), ctx),
+        DataType::Struct(_) => true,
+    })
+}
+spec fn body_pre<'a>(ctx: ImplContext<'a>) -> bool { body_pre0(ImplContext { has_post_init: false, ..ctx }) }
 
 // `return expr` replaces the whole generated body; for into_existing it is assigned to the existing value (C08)
 spec fn spec_quick_return<'a>(qr: Toks, ctx: ImplContext<'a>) -> Toks {
@@ -2971,6 +3447,8 @@ spec fn spec_main_ok<'a>(ctx: ImplContext<'a>) -> Toks {
 }
 
 fn main_code_block(ctx: &ImplContext) -> (r: TokenStream)
+    requires
+        body_pre(*ctx), // #body-preconditions [C16]
     ensures
         r@ =~= spec_main(*ctx), // #body-or-quick-return
 {
@@ -2992,6 +3470,8 @@ fn main_code_block(ctx: &ImplContext) -> (r: TokenStream)
 }
 
 fn main_code_block_ok(ctx: &ImplContext) -> (r: TokenStream)
+    requires
+        body_pre(*ctx), // #body-preconditions [C16]
     ensures
         r@ =~= spec_main_ok(*ctx), // #ok-wrapping
 {
@@ -3061,6 +3541,7 @@ spec fn spec_impl<'a>(input: DataType<'a>, ctx0: ImplContext<'a>) -> Toks {
 fn quote_trait(input: &DataType, ctx: &mut ImplContext) -> (r: TokenStream)
     requires
         old(ctx).fallible ==> old(ctx).struct_attr.err_ty is Some, // #fallible-has-err_ty [C16]
+        body_pre(*old(ctx)), // #body-preconditions [C16]
     ensures
         r@ =~= spec_impl(*input, *old(ctx)), // #kind-to-trait
         *final(ctx) == with_post_init(*old(ctx), the_post_init(*input, *old(ctx)) is Some), // #ctx-frame
@@ -3146,12 +3627,16 @@ spec fn all_ctxs<'a>(input: &'a DataType<'a>, ty: &'a TokenStream) -> Seq<ImplCo
     + ctxs_for(input, Kind::RefIntoExisting, false, ty) + ctxs_for(input, Kind::RefIntoExisting, true, ty)
 }
 spec fn impl_of<'a>(input: &'a DataType<'a>) -> spec_fn(ImplContext<'a>) -> Toks { |c: ImplContext<'a>| spec_impl(*input, c) }
-spec fn ctx_ok<'a>(c: ImplContext<'a>) -> bool { c.fallible ==> c.struct_attr.err_ty is Some }
+spec fn ctx_ok<'a>(c: ImplContext<'a>) -> bool { (c.fallible ==> c.struct_attr.err_ty is Some) && body_pre(c) }
 
 #[verifier::rlimit(2000)]
 fn data_type_impl(input: DataType) -> (r: TokenStream)
     requires
         forall|j: int| 0 <= j < dt_attrs(input).attrs@.len() ==> ((#[trigger] dt_attrs(input).attrs@[j]).fallible ==> dt_attrs(input).attrs@[j].core.err_ty is Some), // #fallible-instructions-declare-an-error-type [C16]
+        // for every impl that can be requested: the body builders' preconditions hold
+        forall|j: int| #![trigger dt_attrs(input).attrs@[j]] 0 <= j < dt_attrs(input).attrs@.len() ==> (forall|k: Kind, f: bool, ty: TokenStream|
+            appl(dt_attrs(input).attrs@[j].applicable_to, k) && f == dt_attrs(input).attrs@[j].fallible
+            ==> body_pre(#[trigger] mk_ctx(&input, &dt_attrs(input).attrs@[j].core, k, f, &ty))), // #body-preconditions-for-every-requested-impl [C16]
     ensures
         forall|ty: TokenStream| ty@ == dt_ident(input).toks() ==> r@ == flat(#[trigger] all_ctxs(&input, &ty).map_values(impl_of(&input))), // #one-impl-per-requested-kind-fallibility-instruction
 {
@@ -3216,7 +3701,7 @@ broadcast use {flat_lemmas::group_flat, flat_lemmas::group_seq, ts_axioms::axiom
         fallible: false,
     }} )).chain(attrs.iter_for_kind_core(&Kind::RefInto, true).map(    |struct_attr: &TraitAttrCore| -> (r: ImplContext) ensures r == mk_ctx(&input, struct_attr, Kind::RefInto, true, &ty)  {ImplContext {
         input: &input, impl_type, struct_attr,
-        kind: Kind::OwnedInto,
+        kind: Kind::RefInto,
         dst_ty: &struct_attr.ty.path,
         src_ty: &ty,
         has_post_init: false,
